@@ -45,19 +45,19 @@ pub fn check(prop: &str, tier: &str) -> i32 {
       prop: "C17",
       rule: "tracker stream",
       assumptions: vec!["task-side and checker-side logs are the ground truth"],
-      configs: vec![Config { name: "td", quick: 60_000, thorough: 2_000_000 }, Config { name: "bu-pure", quick: 60_000, thorough: 2_000_000 }],
+      configs: vec![Config { name: "td", quick: 50_000, thorough: 2_000_000 }, Config { name: "bu-pure", quick: 50_000, thorough: 2_000_000 }, Config { name: "td-checkerr", quick: 30_000, thorough: 1_000_000 }, Config { name: "bu-checkerr", quick: 30_000, thorough: 1_000_000 }, Config { name: "bu-big", quick: 30_000, thorough: 1_000_000 }, Config { name: "x-any-td", quick: 20_000, thorough: 500_000 }],
     }, tier),
     "C16" => run_check(&BuildEngine, &CheckSpec {
       prop: "C16",
       rule: "replays",
       assumptions: vec![],
-      configs: vec![Config { name: "td-replay", quick: 20_000, thorough: 700_000 }, Config { name: "bu-replay", quick: 20_000, thorough: 700_000 }, Config { name: "bu-mixed-replay", quick: 10_000, thorough: 300_000 }],
+      configs: vec![Config { name: "td-replay", quick: 20_000, thorough: 700_000 }, Config { name: "bu-replay", quick: 20_000, thorough: 700_000 }, Config { name: "bu-mixed-replay", quick: 10_000, thorough: 300_000 }, Config { name: "bu-big-replay", quick: 60_000, thorough: 1_500_000 }],
     }, tier),
     "C19" => run_check(&BuildEngine, &CheckSpec {
       prop: "C19",
       rule: "crash faults",
       assumptions: vec![],
-      configs: vec![Config { name: "td-crash", quick: 100_000, thorough: 3_000_000 }, Config { name: "bu-crash", quick: 60_000, thorough: 2_000_000 }],
+      configs: vec![Config { name: "td-crash", quick: 80_000, thorough: 3_000_000 }, Config { name: "bu-crash", quick: 50_000, thorough: 2_000_000 }, Config { name: "x-any-td", quick: 60_000, thorough: 2_000_000 }, Config { name: "x-any-crash", quick: 40_000, thorough: 1_000_000 }, Config { name: "v-td-crash", quick: 40_000, thorough: 1_000_000 }],
     }, tier),
     "C18" => run_check(&BuildEngine, &CheckSpec {
       prop: "C18",
@@ -83,7 +83,7 @@ pub fn check(prop: &str, tier: &str) -> i32 {
     }, tier),
     "C20" => run_check(&BuildEngine, &CheckSpec {
       prop: "C20", rule: "class W never aborts; class V aborts judged", assumptions: vec![],
-      configs: vec![Config { name: "v-td", quick: 80_000, thorough: 2_500_000 }, Config { name: "v-bu", quick: 40_000, thorough: 1_500_000 }, Config { name: "td", quick: 40_000, thorough: 1_000_000 }, Config { name: "bu-mixed", quick: 40_000, thorough: 1_000_000 }, Config { name: "bu-big", quick: 20_000, thorough: 500_000 }],
+      configs: vec![Config { name: "v-td", quick: 80_000, thorough: 2_500_000 }, Config { name: "v-bu", quick: 40_000, thorough: 1_500_000 }, Config { name: "td", quick: 40_000, thorough: 1_000_000 }, Config { name: "bu-mixed", quick: 40_000, thorough: 1_000_000 }, Config { name: "bu-big", quick: 20_000, thorough: 500_000 }, Config { name: "v-bu-big", quick: 60_000, thorough: 1_500_000 }, Config { name: "v-td-crash", quick: 40_000, thorough: 1_000_000 }],
     }, tier),
     _ => { eprintln!("no check for property {prop}"); 2 }
   }
@@ -100,15 +100,15 @@ pub fn configs_of(prop: &str) -> Vec<&'static str> {
     "C03" => vec!["bu-pure", "bu-allroots", "bu-big"],
     "C04" => vec!["bu-big", "bu-pure", "bu-allroots", "bu-big-allroots"],
     "C10" | "C11" => vec!["short", "long"],
-    "C17" => vec!["td", "bu-pure"],
-    "C20" => vec!["v-td", "v-bu", "td", "bu-mixed", "bu-big"],
+    "C17" => vec!["td", "bu-pure", "td-checkerr", "bu-checkerr", "bu-big", "x-any-td"],
+    "C20" => vec!["v-td", "v-bu", "td", "bu-mixed", "bu-big", "v-bu-big", "v-td-crash"],
     "C08" => vec!["td", "bu-mixed", "td-crash", "bu-crash", "m-td", "m-bu"],
     "C05" => vec!["x-hidden-td", "x-hidden-bu", "td"],
     "C06" => vec!["x-overlap-td", "x-overlap-bu", "bu-allroots", "bu-crash", "td-crash"],
     "C07" => vec!["x-cycle-td", "x-cycle-bu"],
     "C18" => vec!["td-checkerr", "bu-checkerr"],
-    "C19" => vec!["td-crash", "bu-crash"],
-    "C16" => vec!["td-replay", "bu-replay", "bu-mixed-replay"],
+    "C19" => vec!["td-crash", "bu-crash", "x-any-td", "x-any-crash", "v-td-crash"],
+    "C16" => vec!["td-replay", "bu-replay", "bu-mixed-replay", "bu-big-replay"],
     _ => vec![],
   }
 }
